@@ -68,11 +68,11 @@ func init() {
 		},
 	})
 	def("C02", &propertyDef{
-		Decides:    "(1) the seven first-match rule tables have pairwise non-overlapping patterns (A1); (2) no range over a map in code reachable from load / render has an order-sensitive effect that is not sorted, keyed by the iteration key, owned by the iteration value or an error-only exit (ORD); (3) no package-level variable is written after init (GLOB).",
+		Decides:    "(1) the seven first-match rule tables have pairwise non-overlapping patterns (A1); (2) no range over a map in code reachable from load / render has an order-sensitive effect that is not sorted, keyed by the iteration key, owned by the iteration value or an error-only exit (ORD); (3) no package-level variable is written after init (GLOB); (4) the raw trees stay trees: no loop stores one loop-invariant map/slice under several keys (TREE), which is what the `disjoint per key` argument of ORD and the in-place mergers rely on.",
 		NotDecided: "determinism of dependencies (yaml/json encoders sorting keys is trusted); OS and file-system nondeterminism; the order in which listeners / visitors are called; which error message is returned when several entries are invalid.",
-		Rules:      []string{"A1", "ORD", "GLOB"},
+		Rules:      []string{"A1", "ORD", "GLOB", "TREE"},
 		Run: func(c *rules.Ctx) []report.Obligation {
-			return cat(c.A1("A1", allTables...), c.ORD("ORD", "LOAD", "RENDER"), c.GLOB("GLOB"))
+			return cat(c.A1("A1", allTables...), c.ORD("ORD", "LOAD", "RENDER"), c.GLOB("GLOB"), c.TREE("TREE", "LOAD"))
 		},
 	})
 	def("C03", &propertyDef{
@@ -105,7 +105,8 @@ func init() {
 		NotDecided: "equivalence with the pasted model; directory anchoring values.",
 		Rules:      []string{"INC", "A10", "CYC", "ERR"},
 		Run: func(c *rules.Ctx) []report.Obligation {
-			return cat(c.INC("INC"), c.A10("A10"), rules.Only(c.CYC("CYC"), "include ::"), rules.Only(c.ERR("ERR", "LOAD"), "loader.ApplyInclude ::"))
+			return cat(c.INC("INC"), c.A10("A10"), rules.Only(c.CYC("CYC"), "include ::"), rules.Only(c.ERR("ERR", "LOAD"), "loader.ApplyInclude ::"),
+				c.RangeGuard("INC-4", "types.(Mapping).Merge", true))
 		},
 	})
 	def("C07", &propertyDef{
@@ -117,11 +118,11 @@ func init() {
 		},
 	})
 	def("C08", &propertyDef{
-		Decides:    "recursiveInterpolate substitutes only in the string arm, stores mapping values under the unchanged range key and returns other scalars unchanged (INT-1); for every schema path that admits a string beside a typed scalar and whose model type is a Go scalar, a string is convertible: cast-table row of a fitting kind, decode-time hook covering the Go kind, or a decoder with a string arm, and every cast row names an existing path of a fitting kind (A5); the cast table is exclusive (A1).",
+		Decides:    "recursiveInterpolate substitutes only in the string arm, stores mapping values under the unchanged range key and returns other scalars unchanged (INT-1); for every schema path that admits a string beside a typed scalar and whose model type is a Go scalar, a string is convertible: cast-table row of a fitting kind, decode-time hook covering the Go kind, or a decoder with a string arm, and every cast row names an existing path of a fitting kind (A5); the cast table is exclusive (A1); no substituted value re-enters substitution, so a `$` inside a value or an already interpolated default is not expanded again (TPL-3).",
 		NotDecided: "`$$` escaping equivalence; that both mechanisms convert a text to the same value; error text naming the path.",
-		Rules:      []string{"INT-1", "A5", "A1"},
+		Rules:      []string{"INT-1", "A5", "A1", "TPL-3"},
 		Run: func(c *rules.Ctx) []report.Obligation {
-			return cat(c.INT1("INT-1"), c.A5("A5"), c.A1("A1", rules.TCast))
+			return cat(c.INT1("INT-1"), c.A5("A5"), c.A1("A1", rules.TCast), rules.OnlyRule(c.TPL("TPL"), "TPL-3"))
 		},
 	})
 	def("C09", &propertyDef{
@@ -165,7 +166,7 @@ func init() {
 		Rules:      []string{"TRV", "R3", "FAN", "RONLY", "IMM"},
 		Run: func(c *rules.Ctx) []report.Obligation {
 			return cat(c.TRV("TRV"), c.R3("R3", "graph"), c.FanOut("FAN", "graph"),
-				c.ROnly("RONLY", "graph", []string{"graph.walk"}, map[string]bool{"traversal.status": true, "traversal.results": true}), c.IMMGraph("IMM"))
+				c.ROnly("RONLY", "graph", []string{"graph.walk"}, map[string]bool{"traversal.status": true, "traversal.results": true}), c.TRVSkip("TRV-11"), c.IMMGraph("IMM"))
 		},
 	})
 	def("C14", &propertyDef{
